@@ -901,6 +901,7 @@ def translate_rule_parser(src):
             and len(i0.body) == 2 and isinstance(i0.body[0], ast.Assign) and isinstance(i0.body[0].targets[0], ast.Tuple)
             and [cname(e) for e in i0.body[0].targets[0].elts] == ["name", "value"]
             and isinstance(i0.body[0].value, ast.Call) and i0.body[0].value.func.attr == "split" and cname(i0.body[0].value.func.value) == "line"
+            and len(i0.body[0].value.args) == 1 and not i0.body[0].value.keywords
             and i0.body[0].value.args[0].value == t.left.args[0].value and len(t.left.args[0].value) == 1
             and isinstance(i0.body[1], ast.If) and isinstance(i0.body[1].test, ast.Compare) and cname(i0.body[1].test.left) == "name"
             and isinstance(i0.body[1].test.ops[0], ast.NotEq) and isinstance(i0.body[1].body[0], ast.Raise) and not i0.body[1].orelse
@@ -920,7 +921,8 @@ def translate_rule_parser(src):
     fb = f.body
     if not (cname(f.target) == "pair" and isinstance(f.iter, ast.Call) and f.iter.func.attr == "split" and cname(f.iter.func.value) == "value"
             and len(fb) == 4 and isinstance(fb[0].targets[0], ast.Tuple) and [cname(e) for e in fb[0].targets[0].elts] == ["name", "value"]
-            and fb[0].value.func.attr == "split" and cname(fb[0].value.func.value) == "pair"
+            and fb[0].value.func.attr == "split" and cname(fb[0].value.func.value) == "pair" and len(fb[0].value.args) == 1 and len(f.iter.args) == 1
+            and not fb[0].value.keywords and not f.iter.keywords
             and all(isinstance(fb[k], ast.Assign) and cname(fb[k].targets[0]) == nm and fb[k].value.func.attr == "upper" and cname(fb[k].value.func.value) == nm
                     for k, nm in ((1, "name"), (2, "value")))
             and isinstance(fb[3], ast.Try) and len(fb[3].body) == 1 and not fb[3].orelse and not fb[3].finalbody):
@@ -956,6 +958,19 @@ def translate_rule_parser(src):
                "  (rrsLineValue line) >>= fun value =>\n  ((ICal.splitOnChar %s value).foldlM (rrsStepPair po) {}) >>= fun rrkwargs =>\n"
                "  if rrkwargs.freq.isNone then .error .%s else .ok rrkwargs\n" % (lean_char(psep), b[3].body[0].exc.func.id))
     fps["_rrulestr._parse_rfc_rrule"] = fingerprint([fn])
+    # __call__: a pure delegation to _parse_rfc
+    fn = find_function(cls, "__call__")
+    cb = strip_docstring(fn.body)
+    rv = cb[0].value if len(cb) == 1 and isinstance(cb[0], ast.Return) else None
+    if not (isinstance(rv, ast.Call) and isinstance(rv.func, ast.Attribute) and rv.func.attr == "_parse_rfc" and cname(rv.func.value) == "self"
+            and [cname(a) for a in rv.args] == ["s"] and [(k.arg, cname(k.value)) for k in rv.keywords] == [(None, "kwargs")]
+            and [a.arg for a in fn.args.args] == ["self", "s"] and fn.args.kwarg is not None and fn.args.kwarg.arg == "kwargs"
+            and not fn.args.vararg and not fn.args.kwonlyargs and not fn.args.defaults):
+        raise Untranslatable("_rrulestr.__call__ is not `return self._parse_rfc(s, **kwargs)`")
+    out.append("/-- translated from `_rrulestr.__call__` (whole method): `return self._parse_rfc(s, **kwargs)` — the text and every keyword\n"
+               "    argument handed on unchanged, nothing else done (`_parse_rfc` itself: `rrsPrefix` + the hand model `RRuleStr.parseRfc`) -/\n"
+               "def rrsCall (s : StrPy.Str) (o : RRuleStr.Opts) (dtstartKw : Bool) : Py.R RRuleStr.Parsed :=\n  RRuleStr.parseRfc s o dtstartKw\n")
+    fps["_rrulestr.__call__"] = fingerprint([fn])
     return "\n".join(out), fps
 
 def translate_all(src):
